@@ -503,3 +503,37 @@ func TempDir(tag string) string {
 }
 
 var _ = math.MaxUint32
+
+// RefVerifyPath is an independent verifier for the audit paths the ledger serves (written from the
+// wire format, own SHA-256 calls): var-bytes value, then (side byte, 32-byte sibling) pairs from the
+// leaf upwards; side 0 = sibling on the left. It returns the proven value, or an error when the path
+// does not lead to root.
+func RefVerifyPath(path []byte, root common.Uint256) ([]byte, error) {
+	src := common.NewZeroCopySource(path)
+	value, eof := src.NextVarBytes()
+	if eof {
+		return nil, fmt.Errorf("path: value truncated")
+	}
+	h := sha256.Sum256(append([]byte{0}, value...))
+	rest := path[src.Pos():]
+	if len(rest)%33 != 0 {
+		return nil, fmt.Errorf("path: %d trailing bytes are not (side, hash) pairs", len(rest))
+	}
+	for i := 0; i < len(rest); i += 33 {
+		sib := rest[i+1 : i+33]
+		var b []byte
+		if rest[i] == 0 {
+			b = append(append([]byte{1}, sib...), h[:]...)
+		} else {
+			b = append(append([]byte{1}, h[:]...), sib...)
+		}
+		h = sha256.Sum256(b)
+	}
+	if common.Uint256(h) != root {
+		return nil, fmt.Errorf("path leads to %x, root is %x", h[:8], root[:8])
+	}
+	return value, nil
+}
+
+// RefLeafHash is the RFC 6962 leaf hash, computed here (not by the code under test).
+func RefLeafHash(v []byte) common.Uint256 { return sha256.Sum256(append([]byte{0}, v...)) }
